@@ -676,6 +676,46 @@ fn c10_limit_agreement() {
     core::mem::forget(r);
 }
 
+/// C10 (limit agreement, relay -> client): a datagram frame of exactly MAX_PACKET_SIZE bytes -
+/// the largest the relay's sending half (`RelayedStream::start_send`, `is_forwardable`)
+/// lets through - is accepted by the client-side decoder, in both protocol versions, single
+/// and batch.
+#[kani::proof]
+#[kani::unwind(6)]
+#[kani::stub(vs::curve25519_dalek::edwards::CompressedEdwardsY::decompress, vs::decompress_all_valid)]
+#[kani::stub(n0_error::backtrace_enabled, vstubs::backtrace_disabled)]
+fn c10_limit_agreement_r2c() {
+    static FRAME6: [u8; MAX_PACKET_SIZE] = {
+        let mut a = [0u8; MAX_PACKET_SIZE];
+        a[0] = 6;
+        a
+    };
+    static FRAME7: [u8; MAX_PACKET_SIZE] = {
+        let mut a = [0u8; MAX_PACKET_SIZE];
+        a[0] = 7;
+        a[35] = 9; // segment size 9
+        a
+    };
+    let v2: bool = kani::any();
+    let version = if v2 { ProtocolVersion::V2 } else { ProtocolVersion::V1 };
+    let r = RelayToClientMsg::from_bytes(Bytes::from_static(&FRAME6), &cache(), version);
+    match &r {
+        Ok(RelayToClientMsg::Datagrams { datagrams, .. }) => {
+            assert!(datagrams.contents.len() == MAX_PACKET_SIZE - 34 && datagrams.segment_size.is_none())
+        }
+        _ => assert!(false, "a relay->client frame at the sender's limit must decode"),
+    }
+    core::mem::forget(r);
+    let r = RelayToClientMsg::from_bytes(Bytes::from_static(&FRAME7), &cache(), version);
+    match &r {
+        Ok(RelayToClientMsg::Datagrams { datagrams, .. }) => {
+            assert!(datagrams.contents.len() == MAX_PACKET_SIZE - 36 && datagrams.segment_size == NonZeroU16::new(9))
+        }
+        _ => assert!(false, "a relay->client batch frame at the sender's limit must decode"),
+    }
+    core::mem::forget(r);
+}
+
 #[kani::proof]
 #[kani::unwind(6)]
 #[kani::stub(vs::curve25519_dalek::edwards::CompressedEdwardsY::decompress, vs::decompress_oracle)]
